@@ -78,6 +78,20 @@ def lexToks : Nat → Str → Option (List Tok)
 
 def tokenize (s : Str) : Option (List Tok) := lexToks (s.length + 1) s
 
+/-- How CPython's PARSER reads a NAME token: text listed in `keyword.kwlist` is a keyword and can never stand where
+    a name is expected (`def class(` is a syntax error) — the tokenizer itself does not tell them apart. -/
+def Tok.isKeyword (keywords : List Str) : Tok → Bool
+  | .name w => keywords.contains w
+  | _ => false
+
+/-- `def {closure_name}(` — the head of every generated function definition
+    (converter_provider.py `_produce_code`: `def {closure_name}{no_types_signature}:`;
+    `str(Signature)` starts with "("). -/
+def defHeader (cn : Str) : Str := [100, 101, 102, 32] ++ cn ++ [40]
+
+/-- `{name}(` — a call of a registered function (`ast.Call(func=ast.Name(name), …)` unparsed). -/
+def callHead (cn : Str) : Str := cn ++ [40]
+
 /-! ## pieces -/
 
 inductive Piece
